@@ -2010,6 +2010,9 @@ Proof. vm_compute. reflexivity. Qed.
 Lemma src_gc_order : src_gc_order_ok = true.
 Proof. vm_compute. reflexivity. Qed.
 
+Lemma src_guards : src_guards_ok = true.
+Proof. vm_compute. reflexivity. Qed.
+
 Theorem crash_safe_src :
   forall (H : list N -> N) (shuffle : nat -> list entry -> list entry),
     (forall c l e, In e (shuffle c l) <-> In e l) ->
